@@ -305,6 +305,16 @@ def register(cls: type[Engine]) -> type[Engine]:
     return cls
 
 
+def merge_stats(dst: Counter[str], src: Counter[str]) -> None:
+    """Sum counters; keys starting with ``max.`` are merged by maximum."""
+    for k, v in src.items():
+        if k.startswith("max."):
+            if v > dst.get(k, 0):
+                dst[k] = v
+        else:
+            dst[k] += v
+
+
 def digest_of(trace: Sequence[str]) -> str:
     h = hashlib.sha256()
     for line in trace:
@@ -468,7 +478,7 @@ def _run_chunk(args: tuple[str, int, int, int, int, int]) -> ChunkResult:
         for i in range(start, start + count):
             want_trace = i < n_digest or i < n_samples
             res, rec = run_seeded(eng, vseed, i, want_trace)
-            out.stats.update(res.stats)
+            merge_stats(out.stats, res.stats)
             out.stats["runs"] += 1
             out.steps += res.steps
             if res.nontrivial:
@@ -576,7 +586,7 @@ def _merge(br: BatchResult, r: ChunkResult) -> None:
         raise HarnessError("engine raised outside a simulated call:\n" + r.harness_error)
     br.runs += r.stats.get("runs", 0)
     br.steps += r.steps
-    br.stats.update(r.stats)
+    merge_stats(br.stats, r.stats)
     if len(br.nontrivial) < _SET_CAP:
         br.nontrivial.update(r.nontrivial)
     else:
@@ -728,7 +738,7 @@ def check(prop: str, tier: str) -> int:
         print(f"HARNESS-ERROR: {e}")
         fresh.kill()
         return 2
-    br.stats.update(x_stats)
+    merge_stats(br.stats, x_stats)
     br.violations.extend(x_viol)
 
     # -- determinism across processes / hash seeds ---------------------------
